@@ -174,7 +174,7 @@ func (cc *codecCtx) jsonForms(b *nom.AccountBlock, enc []byte, want []byte, name
 			return
 		}
 		// decoded to another block: harmless only if its hash no longer matches (a node recomputes the hash)
-		if got.ComputeHash() == got.Hash && got.Hash == b.Hash {
+		if deepHashValid(got) && got.Hash == b.Hash {
 			cc.fail("json-nom", "account-block", "alternative JSON form "+form+" decodes to a different block with the same valid hash", name)
 			return
 		}
@@ -203,6 +203,16 @@ func (cc *codecCtx) jsonForms(b *nom.AccountBlock, enc []byte, want []byte, name
 			try(member+":"+sp.n, alt)
 		}
 	}
+}
+
+// deepHashValid: the Hash field of the block and of every descendant equals its recomputed hash.
+func deepHashValid(b *nom.AccountBlock) bool {
+	for _, d := range b.DescendantBlocks {
+		if !deepHashValid(d) {
+			return false
+		}
+	}
+	return b.ComputeHash() == b.Hash
 }
 
 func momentumShape(m *nom.Momentum) string {
@@ -435,10 +445,15 @@ func walkBlocks(b *nom.AccountBlock, f func(*nom.AccountBlock)) {
 	}
 }
 
-func codecPart(c *xs.Ctx, r *xs.Result, replay bool) {
+const codecSubs = 9 // 4 histories, 4 chunks of generated blocks, generated momentums
+
+func codecPart(c *xs.Ctx, r *xs.Result, sub int) {
 	cc := &codecCtx{r: r}
 	// real histories
 	for hi, hist := range histories(c.Tier) {
+		if sub >= 0 && sub != hi {
+			continue
+		}
 		rec := produce(c, hist)
 		for h := uint64(2); h <= rec.H; h++ {
 			d := rec.Batch[h]
@@ -496,10 +511,16 @@ func codecPart(c *xs.Ctx, r *xs.Result, replay bool) {
 	}
 	// generated shapes
 	for i, b := range genBlocks() {
+		if sub >= 0 && sub != 4+i%4 {
+			continue
+		}
 		cc.checkBlock(b, fmt.Sprintf("generated block %d", i))
 		r.Count("codec_generated_blocks", 1)
 	}
 	for i, d := range genMomentums() {
+		if sub >= 0 && sub != 8 {
+			continue
+		}
 		cc.checkMomentum(d, fmt.Sprintf("generated momentum %d", i))
 		r.Count("codec_generated_momentums", 1)
 	}
